@@ -2,12 +2,19 @@ use crate::{Error, ValR, ValT, ValTx};
 use alloc::string::{String, ToString};
 use jiff::{civil::DateTime, fmt::strtime, tz, Timestamp};
 
+/// Convert seconds to microseconds, failing on NaN.
+///
+/// Infinite and too large values saturate, and are thus out of range for any timestamp.
+fn float_to_micros(f: f64) -> Option<i64> {
+    (!f.is_nan()).then(|| (f * 1000000.0) as i64)
+}
+
 /// Convert a UNIX epoch timestamp with optional fractions.
 fn epoch_to_timestamp<V: ValT>(v: &V) -> Result<Timestamp, Error<V>> {
     let fail = || Error::str(format_args!("cannot convert {v} to time"));
     let val = match v.as_isize() {
         Some(i) => (i as i64).checked_mul(1000000).ok_or_else(fail)?,
-        None => (v.try_as_f64()? * 1000000.0) as i64,
+        None => float_to_micros(v.try_as_f64()?).ok_or_else(fail)?,
     };
     Timestamp::from_microsecond(val).map_err(Error::str)
 }
@@ -26,7 +33,7 @@ fn timestamp_to_epoch<V: ValT>(ts: Timestamp, frac: bool) -> ValR<V> {
 
 fn array_to_datetime<V: ValT>(v: &[V]) -> Option<Result<DateTime, jiff::Error>> {
     let [year, month, day, hour, min, sec]: &[V; 6] = v.get(..6)?.try_into().ok()?;
-    let sec = sec.as_f64()?;
+    let sec = sec.as_f64().filter(|sec| !sec.is_nan())?;
     let i8 = |v: &V| -> Option<i8> { v.as_isize()?.try_into().ok() };
     Some(DateTime::new(
         year.as_isize()?.try_into().ok()?,
@@ -73,7 +80,8 @@ pub fn to_iso8601<V: ValT>(v: &V) -> Result<String, Error<V>> {
     let ts = if let Some(i) = v.as_isize() {
         Timestamp::from_second(i as i64)
     } else {
-        Timestamp::from_microsecond((v.try_as_f64()? * 1e6) as i64)
+        let fail = || Error::str(format_args!("cannot convert {v} to time"));
+        Timestamp::from_microsecond(float_to_micros(v.try_as_f64()?).ok_or_else(fail)?)
     };
     Ok(ts.map_err(Error::str)?.to_string())
 }
